@@ -20,6 +20,7 @@ type Replay struct {
 	Strict   bool              `json:"strict,omitempty"` // transit script is protocol-conformant: exact-forwarding monitor applies
 	Book     []rh.BOp          `json:"book,omitempty"`
 	MaxConns int               `json:"max_conns,omitempty"`
+	ET       *rh.ETScenario    `json:"exit_transit,omitempty"`
 }
 
 // ---------------------------------------------------------------------------
@@ -455,6 +456,14 @@ func witnesses() []Replay {
 		{Kind: "exit", Name: "exit-distinct-ids", MaxConns: 4, Book: []rh.BOp{
 			{Op: "open", Peer: 1, ID: 1}, {Op: "open", Peer: 2, ID: 3}, {Op: "data", Peer: 1, ID: 1, Serial: 0, Tag: 74}, {Op: "data", Peer: 2, ID: 3, Serial: 1, Tag: 75},
 			{Op: "close", Peer: 1, ID: 1}, {Op: "data", Peer: 2, ID: 3, Serial: 1, Tag: 76}, {Op: "destclose", Serial: 1}}},
+		{Kind: "transit", Name: "peer-is-exit-of-one-tunnel-and-ingress-of-another", Strict: true, Transit: &rh.TransitScript{Me: rh.TransitMe, Locals: []uint64{}, Events: []rh.Event{
+			{Ev: "connect", Peer: 1}, {Ev: "connect", Peer: 3}, {Ev: "connect", Peer: 4, Dialer: true},
+			frame(1, rh.TCP, rh.KOpen, 1, []int{3}, 41), // tunnel A: 1 --1--> transit --2--> 3
+			frame(3, rh.TCP, rh.KOpen, 1, []int{4}, 42), // tunnel B: 3 --1--> transit --1--> 4 (same id 1 as peer 1)
+			frame(3, rh.TCP, rh.KClose, 2, nil, 0),      // A is closed from its exit side
+			frame(3, rh.TCP, rh.KData, 1, nil, 43),      // B must still work in both directions
+			frame(4, rh.TCP, rh.KData, 1, nil, 44),
+			frame(3, rh.TCP, rh.KClose, 1, nil, 0)}}},
 		{Kind: "transit", Name: "stale-frame-hits-own-stream", Transit: &rh.TransitScript{Me: rh.TransitMe, Locals: []uint64{1, 2}, Events: append(rh.TransitPrologue(),
 			frame(1, rh.TCP, rh.KData, 2, nil, 5), frame(2, rh.TCP, rh.KClose, 1, nil, 0), frame(1, rh.TCP, rh.KReset, 2, nil, 3))}},
 	}
@@ -539,12 +548,17 @@ func main() {
 			coq = append(coq, rh.CoqACase(*rp.Transit, obs))
 		}
 	}
+	var etReplay *rh.ETScenario
 	if c.Replay != "" {
 		var rp Replay
 		if err := c.ReadReplay(&rp); err != nil {
 			panic(err)
 		}
-		runOne(rp)
+		if rp.Kind == "exittransit" {
+			etReplay = rp.ET
+		} else {
+			runOne(rp)
+		}
 	} else {
 		for _, w := range witnesses() {
 			runOne(w)
@@ -567,7 +581,7 @@ func main() {
 				continue
 			}
 			var sc rh.TransitScript
-			p := vh.Recover(func() { sc, _, _ = rh.GenTransitHistory(r, 8+r.Intn(24), run) })
+			p := vh.Recover(func() { sc, _, _ = rh.GenTransitHistory(r, 8+r.Intn(24), run, i%2 == 1) })
 			run.Close()
 			if p != "" {
 				c.Fail("panic", p, nil)
@@ -584,6 +598,30 @@ func main() {
 	}
 	for _, rp := range books {
 		runBook(rp)
+	}
+	// one agent that is exit for peer 1 and transit for peer 2 with equal numeric
+	// ids (monitor only; these cases come after every model-backed case)
+	runET := func(sc rh.ETScenario) {
+		rp := Replay{Kind: "exittransit", Name: fmt.Sprintf("exit+transit fam=%d dir=%s kind=%d", sc.Fam, sc.Dir, sc.Kind), ET: &sc}
+		var o rh.ETObs
+		var err error
+		if p := vh.Recover(func() { o, err = rh.RunExitTransit(sc) }); p != "" || err != nil {
+			c.Fail("panic", fmt.Sprintf("%s: %s %v", rp.Name, p, err), rp)
+			return
+		}
+		c.Count(fmt.Sprintf("exit+transit:%d/%s/%d", sc.Fam, sc.Dir, sc.Kind))
+		c.Case(rp.Name, true, rp)
+		iso, _ := rh.CheckExitTransit(sc, o)
+		for _, d := range iso {
+			c.Fail("local-endpoint-shadows-relay", rp.Name+": "+d, rp)
+		}
+	}
+	if c.Replay == "" {
+		for _, sc := range rh.AllExitTransit() {
+			runET(sc)
+		}
+	} else if etReplay != nil {
+		runET(*etReplay)
 	}
 	var sb strings.Builder
 	sb.WriteString("From Coq Require Import List NArith ZArith Bool.\nFrom MM Require Import Model.Relay Model.ExitBook.\nImport ListNotations.\nLocal Open Scope N_scope.\n")
